@@ -11,7 +11,7 @@ import (
 
 func init() {
 	register(&Rule{ID: "R35", Name: "MATCHER-TABLE", Floor: 20,
-		Text: "NewMatcher is evaluated on the 16 valuations of (pattern has regexp metacharacters, leading %, trailing %, caseSensitive): the allocated matcher is Regexp / Contains / Suffix / Prefix / Exact (CI variants when not case sensitive); CI matchers are constructed from strings.ToUpper(pattern), case-sensitive ones and the regexp from the pattern itself (the regexp never from an upper-cased pattern, with the (?i) flag exactly when case-insensitive, anchored with ^ / $ exactly at the ends that have no %); every matcher's Matches is a single return of the corresponding strings function applied to the cell (CI: to ToUpper of the cell) and the stored pattern; like passes caseSensitive=true and ilike false in both scolumn and ecolumn; in scolumn the call of Matches is dominated by !isNull",
+		Text: "NewMatcher is evaluated on the 16 valuations of (pattern has regexp metacharacters, leading %, trailing %, caseSensitive): the allocated matcher is Regexp / Contains / Suffix / Prefix / Exact (CI variants when not case sensitive); CI matchers are constructed from strings.ToUpper(pattern), case-sensitive ones and the regexp from the pattern itself (the regexp never from an upper-cased pattern; its flag, anchors and grouping are decided by R102); every matcher's Matches is a single return of the corresponding strings function applied to the cell (CI: to ToUpper of the cell) and the stored pattern; like passes caseSensitive=true and ilike false in both scolumn and ecolumn; in scolumn the call of Matches is dominated by !isNull",
 		Run:  runR35})
 	register(&Rule{ID: "R48", Name: "SCAN-COPY", Floor: 1,
 		Text: "in every implementation of database/sql.Scanner in scope, a []byte taken from the scanned value is only copied (string(v), append) or measured, never reinterpreted in place or retained: the driver may reuse that buffer for the next row",
@@ -204,16 +204,10 @@ func runR35(c *Ctx) {
 			if upper {
 				problems = append(problems, "the regular expression is compiled from an upper-cased pattern (\\d, \\w, \\s and character classes change meaning)")
 			}
-			has := func(s string) bool { return consts[s] }
-			if has("(?i)") == cs {
-				problems = append(problems, fmt.Sprintf("(?i) flag present=%v but caseSensitive=%v", has("(?i)"), cs))
-			}
-			if has("^") == fs {
-				problems = append(problems, fmt.Sprintf("^ anchor present=%v but leading %%=%v", has("^"), fs))
-			}
-			if has("$") == fe {
-				problems = append(problems, fmt.Sprintf("$ anchor present=%v but trailing %%=%v", has("$"), fe))
-			}
+			// the exact text compiled (flag, anchors, grouping, wildcard removal) is decided by R102's token
+			// evaluation; recognising the pieces among the constants concatenated here fails as soon as they are
+			// chosen first and concatenated once ("^(?:" / "(?:" picked by a branch)
+			_ = consts
 		} else if upper == cs {
 			if cs {
 				problems = append(problems, "a case-sensitive matcher is built from an upper-cased pattern")
